@@ -538,6 +538,15 @@ pub fn run_probe(magic: u32, version: u32, device_id: u32, size: usize) -> (bool
             if want {
                 out.push(("probe-rejects-valid".into(), format!("rejected a valid header with {:?}", e)));
             }
+            // The error names what was read from the header.
+            use virtio_drivers::transport::mmio::MmioError;
+            use virtio_drivers::transport::DeviceTypeError;
+            match e {
+                MmioError::BadMagic(m) if m != magic => out.push(("probe-error-value".into(), format!("BadMagic({:#x}) reported for magic {:#x}", m, magic))),
+                MmioError::UnsupportedVersion(v) if v != version => out.push(("probe-error-value".into(), format!("UnsupportedVersion({}) reported for version {}", v, version))),
+                MmioError::InvalidDeviceID(DeviceTypeError::InvalidDeviceType(i)) if i != device_id => out.push(("probe-error-value".into(), format!("InvalidDeviceType({}) reported for device id {}", i, device_id))),
+                _ => {}
+            }
         }
     }
     for a in &tr {
